@@ -5,8 +5,8 @@ import os
 import vlib
 from checks import views
 
-OPS19 = views.ALL_OPS + ["reindexed", "blocked"]
-EXPLICIT_BASE_OPS = {"root", "reindexed", "blocked"}
+OPS19 = views.ALL_OPS + ["reindexed", "blocked", "stenciled"]
+EXPLICIT_BASE_OPS = {"root", "reindexed", "blocked", "stenciled"}
 
 
 def constants(tier, variant):
